@@ -354,6 +354,16 @@ func (m *Model) apply(o Op, hint *Res) Res {
 		return Res{Err: hint.Err}
 	}
 	switch o.Kind {
+	case "Get":
+		b := m.Buckets[o.B]
+		if b == nil {
+			return Res{Err: "NoSuchBucket"}
+		}
+		cur := b.Current(o.K)
+		if cur == nil || cur.Marker {
+			return Res{Err: "NoSuchKey"}
+		}
+		return Res{ETag: cur.ETag(), Size: int64(len(cur.Body()))}
 	case "CreateBucket":
 		if m.Buckets[o.B] != nil {
 			return Res{Err: "BucketAlreadyExists"}
